@@ -51,4 +51,5 @@ def main(tier, replay=None):
                        "a line '.' CR <data> (never produced by a conforming sender) may keep or lose its dot: qmail keeps it, RFC strips it; both accepted",
                        "timeoutread/timeoutwrite and the qmail_* queue API are harness stand-ins (the queue side is C07's subject)"]
     res.require_nonzero("evaluations", "ref_end", "ref_barelf", "ref_eof", "roundtrips_qmail_remote", "sessions", "chunked_runs", "commits_verified", "refused_temporarily", "data_phase_framing_checked")
+    lib_conformance(res, rd, plain, ['io', 'bytes'], tier, asan=False)
     return res.finish()
